@@ -95,6 +95,26 @@ def analyse_loops(repo: Repo, run: Run, interp, mod, fn, cls, reader: T, eof_rai
                f"read() returns b'': it spins forever on a dump cut inside it",
                facts={"exits": sorted(set(ways))[:4], "loop_test": sym.pretty(lr.test)[:80] if lr.test is not None else None},
                line=lr.lineno, witness=None if ok else "any dump truncated while this loop is scanning")
+        # a relative seek inside the loop can undo the progress of the read: it needs a short-read exit
+        back = [c for c in rec.calls if lid in c.loops and c.func == T("attr", (reader, "seek")) and len(c.args) == 2
+                and c.args[1] == const(1) and not (c.args[0].op == "const" and isinstance(c.args[0].a[0], int) and c.args[0].a[0] >= 0)]
+        if back:
+            short_read_exit = False
+            for kind, pc, seq, lineno in lr.exits:
+                if kind not in ("break", "return", "raise"):
+                    continue
+                for c, pol in pc:
+                    for x in sym.walk(c):
+                        if x.op == "cmp" and x.a[0] in ("<", "<=", ">", ">=", "!=", "==") and any(
+                                y.op == "call" and y.a[0] == T("builtin", ("len",)) and y.a[1] and y.a[1][0].op == "call"
+                                and y.a[1][0].a[0] == T("attr", (reader, "read")) for y in sym.walk(x)):
+                            short_read_exit = True
+            run.ob("R1", mod.name, qn, f"{lr.kind} loop at line {lr.lineno}: seeking back keeps making progress", short_read_exit,
+                   "" if short_read_exit else
+                   f"the loop at line {lr.lineno} seeks backwards ({sym.pretty(back[0].args[0])[:40]}) after reading but never tests for a "
+                   f"short read: at the end of the stream it re-reads the same tail forever (the empty-read exit is unreachable)",
+                   facts={"seeks": [sym.pretty(c.args[0])[:40] for c in back]}, line=back[0].lineno,
+                   witness="any dump that ends while this loop is scanning")
         # linear reading: constant positive sizes
         for rc in inside_reads:
             sz = rc.args[0] if rc.args else None
